@@ -83,6 +83,11 @@ def float_to_fraction(x):
     g = f.limit_denominator(10 ** 6)
     if float(g) == x:
         return g
+    # a few ulps off a small rational: the residue of float arithmetic done by the code on
+    # constants before any symbol was involved (e.g. 1/3 - 1 = -0.6666666666666667)
+    g = f.limit_denominator(10 ** 4)
+    if abs(float(g) - x) <= 8e-16 * abs(x):
+        return g
     # decimal literal as written (repr round-trips)
     try:
         h = Fraction(repr(x))
